@@ -774,3 +774,40 @@ func containersOpenStrictly(r *core.Run) {
 	})
 	r.Floor("R-ERR/E4o", 2, "decodeObject, decodeOneof")
 }
+
+// presenceIsNotContent (R-SYM/presence): the decoder decides "this member was
+// given" with Property.IsSet (the oneof key count, E4n), the encoder decides
+// "this member is written" with it. Presence is that the member's field
+// exists — `{}` for an object or a nested oneof is a given member with no
+// content. Field.IsSet of a container means "has content". A Property.IsSet
+// that asks the field makes an empty container absent: two arms of a oneof, one
+// of them `{}`, are then accepted as one.
+func presenceIsNotContent(r *core.Run) {
+	r.Rule("R-SYM/presence", "the IsSet method of j5reflect's property type (the implementation behind Property.IsSet) does not call IsSet / HasAnyValue of the field it holds, directly or through helpers of the package: presence of a member does not depend on the member's content")
+	fd, pk := r.P.FuncDecl("lib/j5reflect", "property.IsSet")
+	if fd == nil || fd.Body == nil {
+		r.Fatal("anchor: j5reflect.property.IsSet not found")
+		return
+	}
+	info := pk.TypesInfo
+	o := r.Add("R-SYM/presence", "lib/j5reflect.property.IsSet | presence does not ask the content", fd.Pos(), "meaning of Property.IsSet")
+	var bad *ast.CallExpr
+	core.InspectTree(pk, fd.Body, func(n ast.Node) bool {
+		c, ok := n.(*ast.CallExpr)
+		if !ok {
+			return true
+		}
+		if s, ok := c.Fun.(*ast.SelectorExpr); ok && (s.Sel.Name == "IsSet" || s.Sel.Name == "HasAnyValue" || s.Sel.Name == "HasAvailableProperty") {
+			if f := core.CalleeFunc(info, c); f != nil && f.Pkg() == pk.Types {
+				bad = c
+			}
+		}
+		return true
+	})
+	if bad != nil {
+		o.Pos = r.P.Rel(bad.Pos())
+		o.Fail("Property.IsSet asks the field (%s): for an object or a nested oneof that means \"has content\", so a member given as {} counts as absent — the decoder's one-key check of a oneof lets {\"a\":{},\"b\":…} through and the last arm silently replaces the other", core.NormExpr(info, bad))
+	} else {
+		o.Auto("decided by the presence flag alone")
+	}
+}
